@@ -471,7 +471,7 @@ def _gen_stream(rng, n: int) -> bytes:
         alpha = b"ab"
     else:
         alpha = b"ab\n\r;x\x00\xff"
-    return bytes(rng.choice(alpha) for _ in range(n))
+    return bytes(rng.choices(alpha, k=n))
 
 
 def _split(rng, data: bytes, mode: str):
